@@ -11,20 +11,25 @@ import (
 
 type vhFlakyStore struct {
 	MemoryStore
-	fail bool
-	hook func()
+	fail  bool
+	hook  func()
+	after bool // run the hook after the backend's own write instead of before it
 }
 
 func (f *vhFlakyStore) PutChangeSet(p, s map[string][]byte) error {
-	if f.hook != nil {
-		h := f.hook
-		f.hook = nil
+	h := f.hook
+	f.hook = nil
+	if h != nil && !f.after {
 		h() // runs while the upper layer's flush is in progress (its lock is released)
 	}
 	if f.fail {
 		return errors.New("disk failure")
 	}
-	return f.MemoryStore.PutChangeSet(p, s)
+	err := f.MemoryStore.PutChangeSet(p, s)
+	if h != nil && f.after {
+		h()
+	}
+	return err
 }
 
 var vhQK []byte
@@ -93,13 +98,28 @@ func vhPersistRun(first byte) {
 	}
 	write("w2")
 	lower.fail = vfBool("fail")
+	lower.after = !lower.fail && vfBool("overlap-after-the-backend-write")
+	secondFlush := vfBool("synchronous-flush-requested-during-the-flush")
+	flushed := make(chan error, 1)
 	lower.hook = func() {
 		// concurrent writer and reader while the flush is in progress
 		write("during")
 		vhCheckView(up, model, first, "during")
+		if secondFlush {
+			// another goroutine asks for a synchronous flush inside the window; it must wait
+			// for the running one (vfQuiesce lets it run until it blocks or finishes)
+			go func() {
+				_, e := up.PersistSync()
+				flushed <- e
+			}()
+			vfQuiesce()
+		}
 	}
 	_, err := up.Persist()
 	vfAssert((err != nil) == lower.fail, "persist-error<=>lower-failed")
+	if secondFlush {
+		<-flushed
+	}
 	vhCheckView(up, model, first, "after")
 	// a later successful flush brings the backend to the same content
 	lower.fail = false
@@ -110,7 +130,7 @@ func vhPersistRun(first byte) {
 
 //vf:tier quick
 //vf:unwind 64
-//vf:bound one shared cache over a backend that may fail its batch write; writes: one before an optional clean flush, one after, one issued (with a read) while the flush is in progress; keys 0x70 + 1 symbolic byte; Get of a symbolic key and full-prefix Seek checked during the flush, after it, and on the backend after a successful retry
+//vf:bound one shared cache over a backend that may fail its batch write; writes: one before an optional clean flush, one after, one issued (with a read) while the flush is in progress (before or after the backend's own batch write), optionally followed inside that window by a PersistSync from another goroutine; keys 0x70 + 1 symbolic byte; Get of a symbolic key and full-prefix Seek checked during the flush, after it, and on the backend after a successful retry
 //vf:stub the overlap of Persist with a writer/reader is driven deterministically from inside the lower store's PutChangeSet (the point where the cache's lock is released); goroutine interleavings finer than that are outside
 func VF_C09_persist_overlap_and_failure() { vhPersistRun(byte(STStorage)) }
 
